@@ -34,3 +34,11 @@ claim("C05",
       "Trusted: CPython, CrossHair path bookkeeping (+tally cross-check), z3, the reference fixed points / minimum tree size "
       "(validated in selftest); stub searcher and stub rules for RuleDBBase; clock and random replaced by shims.",
       "CrossHair symbolic execution (pattern D decision variables; pattern T for `maximum`) + z3", "DESIGN.md 2/C05")
+claim("C09",
+      "Bounded symbolic execution of the real Rule / ReverseRule / EquivalenceRule / EquivalencePathRule and the four constructors "
+      "on stub classes: for each configuration of a catalogue (arity, statistic maps, minimum sizes, atom/empty flags) the "
+      "children's term tables are solver variables; CrossHair/z3 close all paths and prove on each that the real code reproduces "
+      "the parent's true table (forward) or recovers the counted child (reverse / equivalence / path forms). "
+      "Quotient-with-statistics configurations cross into sympy and are run with every table entry forked (pattern D).",
+      "Trusted: CPython, CrossHair, z3, the reference semantics of a genuine union/product with statistic maps (~40 lines, validated on word counts).",
+      "CrossHair symbolic execution (pattern T: symbolic term tables) + z3", "DESIGN.md 2/C09")
